@@ -267,20 +267,42 @@ def r13_2(ctx):
                     m.startswith(('FAIL_ON_', 'GOTO_EXIT_ON_')) for m in f.macros(n)):
                 returned.add(e['name'])
     ok = bool(cleans)
-    for c in cleans:
-        guarded = False
-        for a in f.ancestors(c):
-            if a['k'] == 'if' and any(x is c for x in f.walk(f.kid(a, 1))):
-                cnd = cu.strip_casts(f, f.kid(a, 0))
-                while cnd is not None and cnd['k'] == 'paren':
-                    cnd = cu.strip_casts(f, f.kid(cnd, 0))
-                if cnd is not None and cnd['k'] == 'bin' and cnd['op'] == '!=':
-                    for x, y in ((f.kid(cnd, 0), f.kid(cnd, 1)), (f.kid(cnd, 1), f.kid(cnd, 0))):
-                        xs = cu.strip_casts(f, x)
-                        if xs is not None and xs['k'] == 'ref' and xs['name'] in returned and \
-                                cu.const_of(cu.strip_casts(f, y)) == nr:
-                            guarded = True
-        ok = ok and guarded
+    # every clearing site is reached only after the returned variable was found different
+    # from ERROR_BLOCK_NOT_READY (an `if (result != NR) {..}` block, or an early
+    # `if (result == NR) goto done;` in front of it), with no assignment in between
+    clean_ids = set(c['i'] for c in cleans)
+    unguarded = []
+
+    def step_nr(n, facts):
+        if n['k'] == 'bin' and n['op'].endswith('=') and n['op'] not in ('==', '!=', '<=', '>='):
+            l = cu.strip_casts(f, f.kid(n, 0))
+            if l is not None and l['k'] == 'ref' and l['name'] in returned:
+                return frozenset()
+        if n['k'] == 'ret':
+            return None
+        return facts
+
+    def edge_nr(b, term, cond, idx, succ, facts):
+        pol = paths.branch_polarity(f, term, idx)
+        if pol is None or cond is None:
+            return facts
+        c, p2 = paths.normalise_cond(f, cond, pol)
+        while c is not None and c['k'] == 'paren':
+            c = cu.strip_casts(f, f.kid(c, 0))
+        if c is not None and c['k'] == 'bin' and c['op'] in ('==', '!='):
+            for x, y in ((f.kid(c, 0), f.kid(c, 1)), (f.kid(c, 1), f.kid(c, 0))):
+                xs = cu.strip_casts(f, x)
+                if xs is not None and xs['k'] == 'ref' and xs['name'] in returned and \
+                        cu.const_of(cu.strip_casts(f, y)) == nr:
+                    differs = (c['op'] == '!=') == p2
+                    return (frozenset(facts) | {'ne_nr'}) if differs else (frozenset(facts) - {'ne_nr'})
+        return facts
+
+    def obs_nr(n, facts):
+        if n['i'] in clean_ids and 'ne_nr' not in facts:
+            unguarded.append(n)
+    paths.must_flow(f, set(), step_nr, edge_nr, obs_nr)
+    ok = ok and not unguarded
     ctx.ob('R13.2', 'end-of-scan-cleanup:skipped-when-suspended', ok,
            f.loc(cleans[0]) if cleans else f.file,
            'matches are kept when the scan is suspended with ERROR_BLOCK_NOT_READY and cleaned '
